@@ -25,7 +25,7 @@
 use super::c01::{gen_date, is_leap, yof, MAX_YEAR, MIN_YEAR};
 use super::c06::raw as td_raw;
 use crate::ctx::*;
-use chrono::{DateTime, Datelike, Days, FixedOffset, NaiveDate, NaiveDateTime, NaiveTime, TimeDelta, Timelike, Utc};
+use chrono::{DateTime, Datelike, Days, FixedOffset, Local, NaiveDate, NaiveDateTime, NaiveTime, TimeDelta, TimeZone, Timelike, Utc};
 use std::collections::BTreeMap;
 use std::time::Duration;
 
@@ -330,6 +330,125 @@ fn g_off(c: &mut Ctx) -> i32 {
     }
 }
 
+type LocalArith = (Vec<(String, String)>, Vec<(String, String)>, BTreeMap<String, u64>);
+
+/// `DateTime<Local>` arithmetic under a real zone from the environment (`TZ`; a fresh thread = a fresh
+/// zone cache), judged against `DateTime<Utc>` on the same UTC value and against i128 instants.
+/// Nothing of a `DateTime<Local>` is ever formatted (a wall-clock reading outside the range panics in
+/// `Debug`, which is C15's business): only `naive_utc()` is read.
+fn through_local_arith(tz: &str, cases: Vec<(NaiveDateTime, NaiveDateTime, i128)>, imin: i128, imax: i128) -> LocalArith {
+    let old = std::env::var("TZ").ok();
+    std::env::set_var("TZ", tz);
+    let tzs = tz.to_string();
+    let out = std::thread::spawn(move || {
+        let mut ops: Vec<(String, String)> = vec![];
+        let mut fails: Vec<(String, String)> = vec![];
+        let mut cnt: BTreeMap<String, u64> = BTreeMap::new();
+        let mut offs: std::collections::BTreeSet<i32> = Default::default();
+        for (utc, other, ns) in &cases {
+            let (utc, other, ns) = (*utc, *other, *ns);
+            let td = td_of_ns(ns);
+            let (ds, dnn) = td_raw(&td);
+            let key = format!("TZ={tzs} {} δ=({ds},{dnn})", enc_dt(&utc));
+            let mk = guard(|| (Local.from_utc_datetime(&utc), Local.from_utc_datetime(&other)));
+            let (l, lo) = match mk {
+                Ok(p) => p,
+                Err(()) => {
+                    fails.push(("Local.from_utc_datetime panicked".into(), key));
+                    continue;
+                }
+            };
+            let (u, uo) = (utc.and_utc(), other.and_utc());
+            offs.insert(l.offset().local_minus_utc());
+            let nu = |r: Result<Option<DateTime<Local>>, ()>| r.map(|o| o.map(|x| x.naive_utc()));
+            let nuu = |r: Result<Option<DateTime<Utc>>, ()>| r.map(|o| o.map(|x| x.naive_utc()));
+            for add in [true, false] {
+                let sign = if add { "+" } else { "-" };
+                let gl = nu(guard(|| if add { l.checked_add_signed(td) } else { l.checked_sub_signed(td) }));
+                let gu = nuu(guard(|| if add { u.checked_add_signed(td) } else { u.checked_sub_signed(td) }));
+                // correspondence: the model's zone-aware value (offset 0) must give the same UTC reading
+                ops.push((format!("{} {} 0 {ds} {dnn}", if add { "ar.zadd" } else { "ar.zsub" }, enc_dt(&utc)), match &gl {
+                    Ok(Some(x)) => format!("{} 0", enc_dt(x)),
+                    Ok(None) => "none".into(),
+                    Err(()) => "panic".into(),
+                }));
+                if gl != gu {
+                    fails.push((format!("DateTime<Local> checked {sign} duration does not have the UTC value of DateTime<Utc> {sign} duration (or None / panic differ)"), key.clone()));
+                }
+                if !is_leap_dt(&utc) {
+                    let target = inst(&utc) + if add { ns } else { -ns };
+                    let in_range = target >= imin && target <= imax;
+                    match &gl {
+                        Ok(Some(x)) if in_range && inst(x) == target && !is_leap_dt(x) => *cnt.entry("local±delta:value".into()).or_insert(0) += 1,
+                        Ok(None) if !in_range => *cnt.entry("local±delta:refused".into()).or_insert(0) += 1,
+                        _ => fails.push((format!("DateTime<Local> checked {sign} duration is not exact in nanoseconds / not refused exactly when the instant is not representable"), key.clone())),
+                    }
+                }
+                // operators and assign forms: the checked value, or a panic exactly when it refuses
+                let op = guard(|| {
+                    let mut x = l;
+                    if add {
+                        x += td;
+                        ((l + td).naive_utc(), x.naive_utc())
+                    } else {
+                        x -= td;
+                        ((l - td).naive_utc(), x.naive_utc())
+                    }
+                });
+                match (&gl, &op) {
+                    (Ok(Some(x)), Ok((a, b))) if a == x && b == x => *cnt.entry("local-operator:value".into()).or_insert(0) += 1,
+                    (Ok(None), Err(())) => *cnt.entry("local-operator:panic(refused by the checked form)".into()).or_insert(0) += 1,
+                    _ => fails.push((format!("`DateTime<Local> {sign} TimeDelta` / `{sign}=` disagree with the checked form"), key.clone())),
+                }
+                // the offset of the result is the zone's offset at the result (re-derived), not the operand's
+                if let Ok(Some(x)) = guard(|| if add { l.checked_add_signed(td) } else { l.checked_sub_signed(td) }) {
+                    let again = guard(|| Local.from_utc_datetime(&x.naive_utc()).offset().local_minus_utc());
+                    if again != Ok(x.offset().local_minus_utc()) {
+                        fails.push(("the offset of a DateTime<Local> result is not the zone's offset at that instant".into(), key.clone()));
+                    }
+                    if x.offset().local_minus_utc() != l.offset().local_minus_utc() {
+                        *cnt.entry("local±delta:offset-re-derived(differs from the operand's)".into()).or_insert(0) += 1;
+                    }
+                }
+            }
+            // differences and order: those of the UTC values; also across zone types
+            let d = guard(|| (l.signed_duration_since(lo), l - lo, l - &lo, l.signed_duration_since(uo), u.signed_duration_since(uo)));
+            match &d {
+                Ok((a, b, c2, e, f)) => {
+                    ops.push((format!("ar.zdiff {} 0 {} 0", enc_dt(&utc), enc_dt(&other)), show_td(a)));
+                    if a != b || a != c2 || a != e || a != f {
+                        fails.push(("the difference of DateTime<Local> values is not the difference of their UTC values".into(), key.clone()));
+                    }
+                    if !is_leap_dt(&utc) && !is_leap_dt(&other) && td_ns(a) != inst(&utc) - inst(&other) {
+                        fails.push(("the difference of DateTime<Local> values is not the exact distance of their instants".into(), key.clone()));
+                    }
+                }
+                Err(()) => fails.push(("the difference of DateTime<Local> values panicked".into(), key.clone())),
+            }
+            let o = guard(|| (l.cmp(&lo) as i32, l.partial_cmp(&uo).map(|x| x as i32), l == uo, l == lo));
+            match o {
+                Ok((cm, pc, e1, e2)) => {
+                    let want = utc.cmp(&other) as i32;
+                    if cm != want || pc != Some(want) || e1 != (want == 0) || e2 != (want == 0) {
+                        fails.push(("order / equality of DateTime<Local> (also against DateTime<Utc>) is not that of the UTC values".into(), key.clone()));
+                    }
+                    *cnt.entry("local:cmp(also against DateTime<Utc>)".into()).or_insert(0) += 1;
+                }
+                Err(()) => fails.push(("comparing DateTime<Local> values panicked".into(), key.clone())),
+            }
+        }
+        *cnt.entry(format!("local:distinct offsets met in TZ={tzs}")).or_insert(0) += offs.len() as u64;
+        (ops, fails, cnt)
+    })
+    .join()
+    .unwrap_or_else(|_| (vec![], vec![("the DateTime<Local> arithmetic batch died".into(), tz.to_string())], BTreeMap::new()));
+    match old {
+        Some(v) => std::env::set_var("TZ", v),
+        None => std::env::remove_var("TZ"),
+    }
+    out
+}
+
 pub fn run(c: &mut Ctx) {
     let mut fl = Fails(BTreeMap::new());
     let (dmin, dmax) = (dn_min(), dn_max());
@@ -502,6 +621,8 @@ pub fn run(c: &mut Ctx) {
             let (a, b) = if c.rng.chance(1, 2) { (d, e) } else { (e, d) };
             let diff = guard(|| (a.signed_duration_since(b), a - b));
             c.op(&format!("ar.ddiff {} {}", yof(&a), yof(&b)), &s_td(&diff.map(|p| p.0)));
+            // `impl Sub<NaiveDate> for NaiveDate` itself (model Date.sub_date)
+            c.op(&format!("ax.ddiffop {} {}", yof(&a), yof(&b)), &s_td(&diff.map(|p| p.1)));
             match &diff {
                 Ok((x, y)) => {
                     if td_ns(x) != (dn(&a) - dn(&b)) as i128 * DAY || x != y {
@@ -723,6 +844,37 @@ pub fn run(c: &mut Ctx) {
         let got = guard(|| (a.signed_duration_since(b), a - b));
         c.op(&format!("ar.dtdiff {} {}", enc_dt(&a), enc_dt(&b)), &s_td(&got.map(|p| p.0)));
         c.op(&format!("ar.dtcmp {} {}", enc_dt(&a), enc_dt(&b)), &(a.cmp(&b) as i32).to_string());
+        // `impl Sub<NaiveDateTime> for NaiveDateTime` itself (model NaiveDT.sub_dt)
+        c.op(&format!("ax.dtdiffop {} {}", enc_dt(&a), enc_dt(&b)), &s_td(&got.map(|p| p.1)));
+        // the derived PartialOrd / PartialEq / `<` / max of NaiveDateTime next to the derived Ord
+        // (the derive lines and the field order are pinned; theorem ndt_derived_order)
+        {
+            let ord = guard(|| (a.cmp(&b) as i32, a.partial_cmp(&b).map(|o| o as i32), a == b, a < b, a.max(b), a <= b, a > b, a >= b, a.min(b)));
+            c.op(&format!("ax.dtord {} {}", enc_dt(&a), enc_dt(&b)), &match &ord {
+                Ok((cm, pc, e, lt, mx, ..)) => format!("{cm} {} {e} {lt} {}", pc.map(|v| v.to_string()).unwrap_or_else(|| "none".into()), enc_dt(mx)),
+                Err(()) => "panic".into(),
+            });
+            match &ord {
+                Ok((cm, pc, e, lt, mx, le, gt, ge, mn)) => {
+                    if *pc != Some(*cm) || *e != (*cm == 0) || *lt != (*cm < 0) || *le != (*cm <= 0) || *gt != (*cm > 0) || *ge != (*cm >= 0) || *mx != (if *cm > 0 { a } else { b }) || *mn != (if *cm > 0 { b } else { a }) {
+                        fl.hit(c, "Ord / PartialOrd / PartialEq / max / min of NaiveDateTime are not one order", || format!("{} | {}", enc_dt(&a), enc_dt(&b)));
+                    }
+                    // independent of chrono's comparisons: lexicographic on (day number, second of day, nanosecond field)
+                    let key = |d: &NaiveDateTime| (dn(&d.date()), d.time().num_seconds_from_midnight(), d.time().nanosecond());
+                    if *cm != key(&a).cmp(&key(&b)) as i32 {
+                        fl.hit(c, "the derived order of NaiveDateTime is not lexicographic on (day, second of day, nanosecond field)", || format!("{} | {}", enc_dt(&a), enc_dt(&b)));
+                    }
+                    if !is_leap_dt(&a) && !is_leap_dt(&b) && *cm != (inst(&a) - inst(&b)).signum() as i32 {
+                        fl.hit(c, "the derived order of non-leap NaiveDateTime values is not the order of their instants", || format!("{} | {}", enc_dt(&a), enc_dt(&b)));
+                    }
+                    c.count(match cm { 0 => "dtord:equal", 1 => "dtord:later", _ => "dtord:earlier" });
+                    if a.date() != b.date() && (a.time() < b.time()) != (a.date() < b.date()) {
+                        c.count("dtord:date-and-time-order-opposed(field order matters)");
+                    }
+                }
+                Err(()) => fl.hit(c, "comparing NaiveDateTime values panicked", || format!("{} | {}", enc_dt(&a), enc_dt(&b))),
+            }
+        }
         let nonleap = !is_leap_dt(&a) && !is_leap_dt(&b);
         c.count(if nonleap { "dtdiff:non-leap" } else { "dtdiff:leap-operand(correspondence only)" });
         match &got {
@@ -859,7 +1011,11 @@ pub fn run(c: &mut Ctx) {
             c.op(&format!("ar.zdiff {} {}", enc_z(&z), enc_z(&w)), &s_td(&d1));
             let d2 = guard(|| utc.signed_duration_since(other));
             let d3 = guard(|| z - w);
-            if d1 != d2 || d1 != d3 {
+            // `impl Sub<&DateTime<Tz>> for DateTime<Tz>` (the borrowed operand) is its own impl
+            let d4 = guard(|| z - &w);
+            c.op(&format!("ax.zdiffop {} {}", enc_z(&z), enc_z(&w)), &s_td(&d3));
+            c.op(&format!("ax.zdiffref {} {}", enc_z(&z), enc_z(&w)), &s_td(&d4));
+            if d1 != d2 || d1 != d3 || d1 != d4 {
                 fl.hit(c, "the difference of zone-aware values is not the difference of their UTC values", || format!("{:?} {:?}", z, w));
             }
             // Ord / PartialOrd / PartialEq, also against a value of another zone type
@@ -1003,6 +1159,14 @@ pub fn run(c: &mut Ctx) {
                 }
                 let produced = v.iter().filter(|x| x.3.is_some()).count() as i64;
                 let total = if back { total_back } else { total_fwd };
+                if total == 0 && produced == 0 {
+                    // fewer than one step before the limit: not even the start date is handed out
+                    // (theorem iter_never_yields_limit; judged in the F34 block below)
+                    c.count(&format!("iter:{kind}:start-not-yielded(fewer than one step from the limit)"));
+                }
+                if v.iter().any(|x| x.3 == Some(if back { NaiveDate::MIN } else { NaiveDate::MAX })) {
+                    fl.hit(c, "an iterator handed out the range limit itself (the model and the crate's own tests say it never does)", || format!("{kind} {:?}", start));
+                }
                 if ended && produced != total {
                     fl.hit(c, "the iterator did not end at the range limit", || format!("{kind} {:?}: {produced} items, {total} steps fit", start));
                 }
@@ -1284,6 +1448,104 @@ pub fn run(c: &mut Ctx) {
             Err(()) => fl.hit(c, "iterator len()/count() panicked", || format!("{:?}", start)),
         }
     }
+    // ---- "end at the range limit", read literally (finding F34) ------------------------------------
+    // The property says the iterators "end at the range limit".  Read literally — the last item of a
+    // complete drain is the last date of the progression that is still representable — the crate does
+    // not do that: `next` computes the successor before handing out the cursor, so the limit date is
+    // never produced and a week iterator started less than a week before the limit produces nothing
+    // (pinned by the crate's own tests test_day_iterator_limit / test_week_iterator_limit; theorems
+    // iter_never_yields_limit, iter_yields_exactly, iter_limit_counterexample).  One representative
+    // report per iterator kind and direction.
+    for (kind, step, back) in [("iter_days().next()", 1i64, false), ("iter_weeks().next()", 7, false), ("iter_days().next_back()", 1, true), ("iter_weeks().next_back()", 7, true)] {
+        for k in [0i64, 2, 6, 9] {
+            let start = if back { date_of_dn(dmin + k) } else { date_of_dn(dmax - k) };
+            let got = guard(|| {
+                let mut v: Vec<NaiveDate> = vec![];
+                let mut i = start.iter_days();
+                let mut w = start.iter_weeks();
+                for _ in 0..40 {
+                    let x = match (step, back) {
+                        (1, false) => i.next(),
+                        (1, true) => i.next_back(),
+                        (_, false) => w.next(),
+                        _ => w.next_back(),
+                    };
+                    match x {
+                        Some(d) => v.push(d),
+                        None => break,
+                    }
+                }
+                v
+            });
+            // literal reading: every date start ± step·j that is representable, up to and including the limit
+            let want_last = if back { dn(&start) - (dn(&start) - dmin) / step * step } else { dn(&start) + (dmax - dn(&start)) / step * step };
+            match &got {
+                Ok(v) => {
+                    let last = v.last().map(dn);
+                    if last == Some(want_last) {
+                        c.count("iter:limit:literal-reading-holds(the last representable date of the progression is the last item)");
+                    } else {
+                        c.count(&format!("iter:limit:stops-one-step-short(F34):{kind}"));
+                        if k == 2 || (step == 7 && k == 6) {
+                            // what does hold: exactly one step is missing
+                            let ok = match last {
+                                Some(l) => (want_last - l).abs() == step,
+                                None => want_last == dn(&start),
+                            };
+                            if !ok {
+                                fl.hit(c, "a drained iterator misses more than the final step before the range limit", || format!("{kind} from {:?}", start));
+                            }
+                        }
+                        if (step == 1 && k == 2) || (step == 7 && k == 6) {
+                            c.fail(
+                                &format!("iterator stops one step short of the range limit: {kind}"),
+                                &format!("from {:?}: last item {} but {} is representable and on the progression ({} items produced)", start, v.last().map(pd).unwrap_or_else(|| "<none: not even the start date>".into()), pd(&date_of_dn(want_last)), v.len()),
+                            );
+                        }
+                    }
+                }
+                Err(()) => fl.hit(c, "iterator panicked", || format!("{kind} {:?}", start)),
+            }
+        }
+    }
+
+    // ---- DateTime<Local>: a general `Tz` whose `from_utc_datetime` re-derives the offset ------------
+    // (second review, gap G4)  The Lean model of zone-aware values carries a fixed offset; for `Local`
+    // the offset of the result is looked up again.  C03's claim is that this does not touch the
+    // instant: the UTC reading of every result is that of `DateTime<Utc>`, `None` / panic coincide,
+    // and (correspondence) the model's UTC-zone value agrees.
+    for tz in ["Europe/London", "America/New_York", "Pacific/Apia", "EST5EDT,M3.2.0,M11.1.0"] {
+        let n = c.n(400, 6_000);
+        let mut cases: Vec<(NaiveDateTime, NaiveDateTime, i128)> = vec![];
+        for i in 0..n {
+            let utc = match i % 8 {
+                0 => NaiveDateTime::new(NaiveDate::MIN, mk_time(0, 0)),
+                1 => NaiveDateTime::new(NaiveDate::MAX, mk_time(86_399, 999_999_999)),
+                // around DST switches of the northern / southern hemisphere and the Apia date-line jump
+                2 => NaiveDateTime::new(NaiveDate::from_ymd_opt(*c.rng.pick(&[1900, 1970, 2011, 2024, 2037, 2038, 9999]), *c.rng.pick(&[3, 4, 10, 11, 12]), 1 + c.rng.below(28) as u32).unwrap(), mk_time(g_secs(c), g_frac(c, false))),
+                _ => g_dt(c, i % 16 == 3),
+            };
+            let ns = g_delta_for(c, &utc);
+            let other = match c.rng.below(3) {
+                0 => utc,
+                _ => g_dt(c, false),
+            };
+            cases.push((utc, other, ns));
+        }
+        let (ops, fails, cnt) = through_local_arith(tz, cases, imin, imax);
+        for (o, r) in ops {
+            c.op(&o, &r);
+        }
+        for (w, d) in fails {
+            fl.hit(c, &w, || d);
+        }
+        for (k, v) in cnt {
+            for _ in 0..v {
+                c.count(&k);
+            }
+        }
+    }
+
     c.sample(&format!("ar.dtadd MAX(86399.999999999) +1ns -> {}", s_odt(&guard(|| NaiveDateTime::new(NaiveDate::MAX, mk_time(86_399, 999_999_999)).checked_add_signed(td_of_ns(1))))));
     c.sample(&format!("ar.ddiff MAX MIN -> {}", s_td(&guard(|| NaiveDate::MAX.signed_duration_since(NaiveDate::MIN)))));
 }
